@@ -551,6 +551,26 @@ pub struct World {
     /// what the last doctor run reported
     pub last_doctor: Option<String>,
     pub branches: Vec<String>,
+    /// handles abandoned by simulated crashes: released (without their destructor's commit) when the history ends
+    pub graveyard: Graveyard,
+}
+
+/// Abandoned handles of simulated crashes.  `mem::forget` for good kept every such handle's descriptors,
+/// Tantivy writer threads and buffers alive for the whole run: after a few hundred histories (thorough tier)
+/// the process held gigabytes and thousands of threads and finally aborted (`failed to initiate panic`).
+/// They are kept untouched while the history runs (nothing may be written or unlocked by them) and are
+/// released through `verif_hooks::verif_abandon` — dirty flag cleared, so the destructor writes nothing —
+/// when the world is dropped.  Declared BEFORE nothing else depends on it: the field order of `World` drops
+/// the temp directory first, which is harmless (the files stay reachable through the open descriptors).
+#[derive(Default)]
+pub struct Graveyard(pub Vec<std::mem::ManuallyDrop<Memvid>>);
+impl Drop for Graveyard {
+    fn drop(&mut self) {
+        for m in self.0.drain(..) {
+            let m = std::mem::ManuallyDrop::into_inner(m);
+            let _ = std::panic::catch_unwind(std::panic::AssertUnwindSafe(|| verif_hooks::verif_abandon(m)));
+        }
+    }
 }
 
 pub struct Step {
@@ -570,7 +590,7 @@ impl World {
         let mem = Memvid::create(&path).map_err(|e| format!("create: {e}"))?;
         Ok(World {
             dir, path, mem: Some(mem), reference: RefModel::default(), cats: HashMap::new(), emb_dims: HashMap::new(),
-            batch: None, step_no: 0, last_ro: None, last_doctor: None, branches: vec![],
+            batch: None, step_no: 0, last_ro: None, last_doctor: None, branches: vec![], graveyard: Graveyard::default(),
         })
     }
 
@@ -786,7 +806,7 @@ impl World {
                 // process death: the handle's destructor never runs, the kernel closes its descriptors
                 let mem = self.mem.take().expect("handle open");
                 let (_fd_file, fd_lock) = verif_hooks::verif_fds(&mem);
-                std::mem::forget(mem);
+                self.graveyard.0.push(std::mem::ManuallyDrop::new(mem));
                 // what the kernel does when the process dies: the advisory lock of the open file
                 // description goes away (the leaked descriptors themselves are harmless)
                 unsafe { libc::flock(fd_lock, libc::LOCK_UN); }
